@@ -9,7 +9,8 @@ open Gossamer Gossamer.C34
         g = Pending  l = Len  w = PopWithTimer with an expired timer (= Pop)
       → `<res>:<slots>;…|<hash/prio/order/index …>|txs=<sorted hashes>|ord=<currOrder>`
         (`<slots>` = hashes in slice order, `!` appended when some `index` ≠ its position)
-   `lock <Type> <Method>` / `methods <Type>` / `table <Type>|<table>` as in C35; `race …` → `ok` -/
+   `table <Type>|<table>` → `safe`/`racy <method>` decided over the table extracted from the current
+   source (as in C35); `race …` → `ok` -/
 
 def showSlots (q : PQ) : String :=
   let l := q.toList
@@ -52,25 +53,11 @@ def seqCase (body : String) : String :=
       let ks := (s.txs.map (·.1)).mergeSort (· ≤ ·)
       s!"{";".intercalate outs}|{dump}|txs={",".intercalate (ks.map toString)}|ord={s.currOrder}"
 
-def tables : List (String × List Monitor.Method) :=
-  [("PriorityQueue", (Monitor.ofTriples lockTablePQ).getD []),
-   ("Pool", (Monitor.ofTriples lockTablePool).getD []),
-   ("TransactionState", (Monitor.ofTriples lockTableTS).getD [])]
-
 def step (line : String) : String :=
   match words line with
-  | ["lock", ty, m] =>
-    match tables.lookup ty with
-    | some t => match t.find? (·.name == m) with
-      | some e => e.render
-      | none => "no-such-method"
-    | none => "no-such-type"
-  | ["methods", ty] =>
-    match tables.lookup ty with
-    | some t => ",".intercalate (t.map (·.name))
-    | none => "no-such-type"
   | "race" :: _ => "ok"
   | "table" :: _ =>
+    -- the lock table the harness extracted from the CURRENT source is on the line: decide it
     match line.splitOn "|" with
     | [_, t] => match Monitor.parseTable t with
       | some tb => Monitor.verdict tb
